@@ -378,6 +378,12 @@ func (w *WAL) ReadAll() (metadata []byte, state raftpb.HardState, ents []raftpb.
 					return nil, state, nil, fmt.Errorf("index out of range, corrupt data: %v-%v", up, len(ents))
 				}
 				ents = append(ents[:up], e)
+			} else {
+				// An entry at or before the snapshot index was (re)written after the
+				// entries collected so far: that write truncated the log behind it, so
+				// whatever was collected beyond the snapshot is stale and must not be
+				// returned (it would not be returned when reading from an earlier snapshot).
+				ents = ents[:0]
 			}
 			w.enti = e.Index
 		case stateType:
